@@ -86,6 +86,17 @@ def new_interp(contracts):
     return it
 
 
+def _known_hyps(interp, contract, known, full_name, bound, extra=None):
+    """hypotheses `not class` for the known findings recorded against this obligation (the complement proof)"""
+    out, hits = [], []
+    for k in known or ():
+        if k["obligation"] == full_name or full_name.startswith(k["obligation"] + "["):
+            c = contract.eval_clause(interp, k["class"], bound, extra)
+            out.append(V._bool_term(V.snot(c)) if is_sym(c) else z3.BoolVal(not c))
+            hits.append(k)
+    return out, hits
+
+
 def gen_function(contract, contracts, known=()):
     """symbolically execute the real function under its contract -> FuncReport"""
     rep = FuncReport(contract.key)
@@ -162,12 +173,14 @@ def gen_function(contract, contracts, known=()):
                             {"kind": "raises_missing", "clause": cond, "exc": exc_name})
             for name, text in contract.ensures.items():
                 if isinstance(text, dict):
-                    emit_structured(interp, contract, path, name, text, bound, result)
+                    emit_structured(interp, contract, path, name, text, bound, result, known, case_tag)
                     continue
                 g = contract.eval_clause(interp, text, bound, {"result": result})
                 nat = (contract.native or {}).get(name)
+                kh, hits = _known_hyps(interp, contract, known, f"{contract.key}/ensures.{name}{case_tag}", bound,
+                                       {"result": result})
                 path.oblige(f"ensures.{name}", g, {"kind": "ensures", "clause": nat or text, "clause_name": name,
-                                                   "symbolic_clause": text})
+                                                   "symbolic_clause": text, "known": hits}, extra_hyps=kh)
             path.oblige("canary", False, {"kind": "canary"})
             return result
 
@@ -221,7 +234,7 @@ def _snapshot_entry(bound):
     return snaps
 
 
-def emit_structured(interp, contract, path, name, spec, bound, result):
+def emit_structured(interp, contract, path, name, spec, bound, result, known=(), case_tag=""):
     """ensures clause with universally quantified variables and a proof chain:
          forall vars. assume => show        proved as  assume & steps[<i] => steps[i]  and  assume & steps => show
        (cut rule; the variables are skolem constants, which is complete for a goal)."""
@@ -232,7 +245,11 @@ def emit_structured(interp, contract, path, name, spec, bound, result):
     try:
         if spec.get("assume"):
             path.assume(contract.eval_clause(interp, spec["assume"], bound, extra))
-        native_clause = "implies(%s, %s)" % (spec.get("assume") or "True", spec["show"])
+        native_clause = (contract.native or {}).get(name) or \
+            "implies(%s, %s)" % (spec.get("assume") or "True", spec["show"])
+        kh, hits = _known_hyps(interp, contract, known, f"{contract.key}/ensures.{name}{case_tag}", bound, extra)
+        for h in kh:
+            path.conds.append(h)
         for i, st in enumerate(spec.get("steps", [])):
             hint = None
             if isinstance(st, (tuple, list)):
@@ -335,7 +352,7 @@ def build_replay(pid, contract, ob_name, meta, model, verdict_raw):
             "    raised = e",
             "print('result:', result if raised is None else None, '| raised:', repr(raised))",
             "env = dict(HELPERS); env.update(getattr(_c, 'native_helpers', None) or _c.helpers); env.update(args); env['result'] = result",
-            "env.update({'np': np, 'max': max, 'min': min, 'abs': abs, 'len': len, 'all': all, 'any': any, 'int': int, 'float': float, 'round': round, 'slice': slice, 'tuple': tuple, 'zip': zip, 'range': range, 'sum': sum, 'isinstance': isinstance})",
+            "env.update({'model': model, 'np': np, 'max': max, 'min': min, 'abs': abs, 'len': len, 'all': all, 'any': any, 'int': int, 'float': float, 'round': round, 'slice': slice, 'tuple': tuple, 'zip': zip, 'range': range, 'sum': sum, 'isinstance': isinstance})",
         ]
         clause = meta.get("clause", "")
         if meta.get("qvars"):
@@ -472,7 +489,7 @@ def check_property(pid, tier="quick", seed=0, bounded_hooks=None, only=None, wri
             run.reports.append(rep)
             continue
         try:
-            rep = gen_function(c, contracts)
+            rep = gen_function(c, contracts, known)
         except CheckerFault as e:
             run.say(f"CHECKER-FAULT property={pid} function={c.key}: {e}")
             run.faults.append(str(e))
@@ -488,33 +505,37 @@ def check_property(pid, tier="quick", seed=0, bounded_hooks=None, only=None, wri
             run.say(f"CHECKER-FAULT property={pid} function={c.key}: zero contract obligations generated")
             run.faults.append(f"{c.key}: zero obligations")
             continue
-        # known-finding classes become extra hypotheses (the complement proof)
         for (name, hyps, goal, meta) in rep.obligations:
-            kf = [k for k in known if k["obligation"] == obligation_base(name) or
-                  k["obligation"] == obligation_base(name).split("[")[0]]
-            extra = []
-            if kf:
-                interp = new_interp(contracts)
-                interp.path = X.Path([], X.Explorer())
-                V.set_path(interp.path)
-                try:
-                    bound = {n: s.fresh(n, interp.path) for n, s in meta["specs"].items()}
-                    for k in kf:
-                        cls = c.eval_clause(interp, k["class"], bound)
-                        extra.append(V._bool_term(V.snot(cls)) if is_sym(cls) else z3.BoolVal(not cls))
-                finally:
-                    V.set_path(None)
-                meta["known"] = kf
-            all_obs.append((f"{pid}/{name}", list(hyps) + extra, goal, meta, c))
+            all_obs.append((f"{pid}/{name}", list(hyps), goal, meta, c))
         for (name, hyps, goal, meta) in rep.canaries:
             all_obs.append((f"{pid}/{name}", hyps, goal, meta, c))
     if run.faults:
         return finish(run, 3)
 
     def _cands(m):
-        out = []
+        """combined candidate instantiations: every parameter that offers candidates is pinned (k-th of each)"""
+        per = []
         for n, sp in (m.get("specs") or {}).items():
-            out.extend(sp.candidates(n))
+            c = sp.candidates(n)
+            if c:
+                per.append(c)
+        if not per:
+            return []
+        out = []
+        for k in range(min(4, max(len(p) for p in per))):
+            subst, extra, label = {}, [], {}
+            for p in per:
+                c = p[min(k, len(p) - 1)]
+                if isinstance(c, dict):
+                    subst.update(c)
+                elif len(c) == 3:
+                    subst.update(c[0])
+                    extra.extend(c[1])
+                    label.update(c[2])
+                else:
+                    extra.extend(c[0])
+                    label.update(c[1])
+            out.append((subst, extra, label))
         return out
     res = solve.discharge_all([(h, [] if m.get("kind") == "canary" else (m.get("opt") or []), g,
                                 [] if m.get("kind") == "canary" else _cands(m), m.get("hint"))
